@@ -7,11 +7,14 @@ Open Scope N_scope.
 
 Inductive scase :=
 | SConsts (largest hl maxlen tread twrite0 treaddir rread0 rreaddir0 rlerror : N)
-| SSetup (req ann : N) (ok : bool)
-| SRead (req ann count fsize off rtype rsize : N) (err : bool) (rcount asked : option N)
-| SXRead (req ann count off vlen rtype rsize : N) (err : bool) (rcount : option N)
-| SReaddir (req ann count : N) (sizes : list N) (rtype rsize : N) (err : bool) (rcount : option N)
-| SClient (req announce : N) (result : N)        (* 0 ok, 1 ErrMessageTooLarge, 2 other refusal, 3 the client stopped answering (watchdog) *)
+| SSetup (ok : bool)
+| SHist (hist : list tv) (announced : list N)          (* msize of each Rversion received, in order *)
+    (* [hist]: the Tversions sent on this connection so far; [ann]: msize of the last Rversion that
+       announced one, as observed; [err]: 0 answered, 1 connection lost, 2 no answer in time (confirmed 3x) *)
+| SRead (hist : list tv) (ann count fsize off rtype rsize errno err : N) (rcount asked : option N)
+| SXRead (hist : list tv) (ann count off vlen rtype rsize errno err : N) (rcount : option N)
+| SReaddir (hist : list tv) (ann count : N) (sizes : list N) (rtype rsize err : N) (rcount : option N)
+| SClient (req announce : N) (result : N)        (* 0 ok, 1 ErrMessageTooLarge, 2 other refusal, 3 the client stopped answering (watchdog, confirmed 3x) *)
           (msize payload : N)
           (op : N)                               (* 0 WriteAt, 1 ReadAt, 2 Readdir, 3 GetXattr *)
           (n avail : N)
@@ -45,23 +48,29 @@ Definition agrees (c : scase) : bool :=
       (l =? largestFixedSize) && (hl =? p9_headerLength) && (mx =? p9_maximumLength) &&
       (tr =? tread_frame) && (tw =? twrite_frame 0) && (trd =? tread_frame) &&
       (rr =? rdata_frame 0) && (rrd =? rdata_frame 0) && (rl =? rlerrorFrame)
-  | SSetup req ann ok => ok            (* every configuration used can be set up *)
-  | SRead req ann count fsize off rtype rsize err rcount asked =>
-      negb err && (ann =? N.min req p9_maximumLength) &&
-      match tread_handle ann count (fsize - off) with
+  | SSetup ok => ok                    (* every configuration used can be set up *)
+  | SHist hist announced => list_eqb (snd (run_hist 0 hist)) announced
+  | SRead hist ann count fsize off rtype rsize errno err rcount asked =>
+      let cs := fst (run_hist 0 hist) in
+      (err =? 0) && (ann =? cs) &&
+      match tread_handle cs count (fsize - off) with
       | SData n => (rtype =? p9_msgRread) && (rsize =? replyOverhead + n) && opt_eqb rcount n &&
-                   opt_eqb asked (N.min count (max_reply_payload ann))
-      | SRlerror | SPanic => (rtype =? p9_msgRlerror) && (rsize =? rlerrorFrame)
+                   opt_eqb asked (N.min count (max_reply_payload cs))
+      | SRlerror e => (rtype =? p9_msgRlerror) && (rsize =? rlerrorFrame) && (errno =? e)
+      | SPanic => (rtype =? p9_msgRlerror) && (rsize =? rlerrorFrame) && (errno =? EFAULT)
       end
-  | SXRead req ann count off vlen rtype rsize err rcount =>
-      negb err && (ann =? N.min req p9_maximumLength) &&
-      match txread_handle ann count off vlen with
+  | SXRead hist ann count off vlen rtype rsize errno err rcount =>
+      let cs := fst (run_hist 0 hist) in
+      (err =? 0) && (ann =? cs) &&
+      match txread_handle cs count off vlen with
       | SData n => (rtype =? p9_msgRread) && (rsize =? replyOverhead + n) && opt_eqb rcount n
-      | SRlerror | SPanic => (rtype =? p9_msgRlerror) && (rsize =? rlerrorFrame)
+      | SRlerror e => (rtype =? p9_msgRlerror) && (rsize =? rlerrorFrame) && (errno =? e)
+      | SPanic => (rtype =? p9_msgRlerror) && (rsize =? rlerrorFrame) && (errno =? EFAULT)
       end
-  | SReaddir req ann count sizes rtype rsize err rcount =>
-      negb err && (ann =? N.min req p9_maximumLength) &&
-      match treaddir_handle ann count sizes with
+  | SReaddir hist ann count sizes rtype rsize err rcount =>
+      let cs := fst (run_hist 0 hist) in
+      (err =? 0) && (ann =? cs) &&
+      match treaddir_handle cs count sizes with
       | SData n => (rtype =? p9_msgRreaddir) && (rsize =? replyOverhead + n) && opt_eqb rcount n
       | _ => false
       end
@@ -90,9 +99,12 @@ Definition agrees (c : scase) : bool :=
 (** the property on the observed sizes only *)
 Definition property_holds (c : scase) : bool :=
   match c with
-  | SRead _ ann _ _ _ _ rsize err _ _ => negb err && (rsize <=? ann)
-  | SXRead _ ann _ _ _ _ rsize err _ => negb err && (rsize <=? ann)
-  | SReaddir _ ann _ _ _ rsize err _ => negb err && (rsize <=? ann)
+  (* [ann] is what the peer saw announced last; a connection lost (err 1) means some reply could not be
+     read as a frame; a confirmed stall (err 2) is not a size violation: it is reported through [agrees]
+     (the model says the call returns).  A handler panic (Rlerror EFAULT) is a failure to shorten the data. *)
+  | SRead _ ann _ _ _ _ rsize errno err _ _ => negb (err =? 1) && (rsize <=? ann) && negb (errno =? EFAULT)
+  | SXRead _ ann _ _ _ _ rsize errno err _ => negb (err =? 1) && (rsize <=? ann) && negb (errno =? EFAULT)
+  | SReaddir _ ann _ _ _ rsize err _ => negb (err =? 1) && (rsize <=? ann)
   | SClient req announce result _ _ _ _ _ frames allsizes _ =>
       if (result =? 0) || (result =? 3) then
         forallb (fun sz => sz <=? announce) allsizes &&
